@@ -26,12 +26,14 @@ replay: every block is rendered to text and given to the REAL IterativeMachineGe
         Numeric predicates, exact rationals (fractions.Fraction):
           resid_ok(k)  every equation of the block holds on the module's own values of period k, lags
                        from its own period k-1, exogenous from the supplied path (and the module's
-                       exogenous series equal the supplied path), within B = 4*n*(1+L)*tol*scale
-                       (n equations, L largest |coefficient|, tol the block's Err_Tolerance, scale =
-                       max(1, largest |value| of periods k-1, k)); the step index k of 't = k' is the
-                       period number, as in EquationSolver.
+                       exogenous series equal the supplied path), within the ABSOLUTE bound
+                       B = 4*n*(1+L)*tol + n*2**-46*scale  (n equations, L largest |coefficient|, tol the
+                       block's Err_Tolerance, scale = max(1, largest |value| of periods k-1, k), the second
+                       term only covers double rounding); the step index k of 't = k' is the period number,
+                       as in EquationSolver.
           agree_ok(k)  |module - in-process| <= D_k componentwise, D_k = (I-|A|)^-1 (|Lag| D_{k-1} +
-                       B_module + B_inprocess), D_0 = 0; exogenous series equal.
+                       B_module + B_inprocess), D_0 = 0, B_inprocess = 4*n*(1+L)*tol*scale (the in-process
+                       solver stops on a RELATIVE measure); exogenous series equal.
 trace:  the recorded executions are validated by TLC against Codegen_Trace (same operators); one total
         verdict per block.
 
@@ -48,6 +50,9 @@ abs, pow, round, ...), the time trend may be wrapped (max(t, 0.0), hypot(t, 0.0)
 expression may use them too; the driver computes their float values, so the block stays affine.  The generated
 module must resolve every name the in-process solver resolves (C20_ResolvesSolverNames, C20_Closed over the
 module's own globals, which the driver reads from the import statements of the written file).
+
+Magnitudes (ninth follow-up): constants 2000.0 / 1000000.0 crossed with Err_Tolerance 1e-4 / 1e-6 / default on
+coupled matrices: the equation error must stay of the order of the stated tolerance, not tolerance x |value|.
 
 Histories and text (eighth follow-up): two-block histories on ONE generator object (IterativeMachineGenerator(A)
 .main(file); ParseString(B); main(file)): every per-block attribute of B's module - tolerance, horizon, lists,
@@ -81,8 +86,9 @@ Readings (the weaker one where the statement leaves a choice):
   * blocks are well-posed: exogenous values are LISTS ("exogenous lists" in the quantifier; the scalar
     shorthand  G = 20.  of the in-process solver is not generated) with at least MaxTime+1 values, the
     system contracts (factor <= 0.5) - divergence and too-short lists are C02/C10/C11;
-  * "the stated tolerance": the bound B above (the generated module stops on the ABSOLUTE error sum, the
-    in-process solver on a relative one; both are far inside B);
+  * "the stated tolerance": the module's Err_Tolerance is an absolute number (its stopping rule is the plain
+    sum of absolute changes), so the equation error of the module is judged ABSOLUTELY, whatever the
+    magnitude of the values (blocks with constants 2e3 and 1e6 crossed with 1e-4 / 1e-6 / default);
   * extra columns in the table (e.g. a step-index series) are allowed but, like every column, at most
     once; lagged variables are not required; the clauses hold for every module a generator object writes;
   * everything about the spelling / order of the generated sections is conformance (DRIFT), not property.
@@ -167,7 +173,7 @@ def system(block):
             if block['cst'] == 2:
                 e['same'][param] = F(1)
             else:
-                e['const'] = F(1000000) if block['cst'] == 3 else F(2)
+                e['const'] = {3: F(1000000), 4: F(2000)}.get(block['cst'], F(2))
                 if block['cst'] == 1:                      # a closed expression over math names / builtins
                     e['const_text'] = CONST_SPELLINGS[block.get('fn', 1) - 1]
                     e['const'] = F(eval(e['const_text'], _math_namespace()))   # exactly the float both solvers get
@@ -531,12 +537,15 @@ def numeric_flags(block, mod_series, in_series, steps_ok):
     out = {}
     for k in range(1, steps_ok + 1):
         bad_r, bad_a = [], []
+        beyond_relative = False
         usable = all(nm in mod_series and len(mod_series[nm]) > k and _finite(mod_series[nm][:k + 1])
                      for nm in endo + list(paths))
         if not usable:
             out[k] = {'resid_ok': False, 'agree_ok': True, 'bad_resid': ['<missing-or-non-finite>'], 'bad_agree': []}
             continue
-        b_mod = unit * scale(mod_series, k)
+        # the module states an ABSOLUTE tolerance (its stopping rule is the plain error sum): the residual is
+        # judged absolutely, with an allowance for double rounding only (2**-46 of the largest value per equation)
+        b_mod = unit + n * F(1, 2 ** 46) * scale(mod_series, k)
         for nm in paths:
             if mod_series[nm][k] != paths[nm][k] or mod_series[nm][k - 1] != paths[nm][k - 1]:
                 bad_r.append(nm)
@@ -549,6 +558,8 @@ def numeric_flags(block, mod_series, in_series, steps_ok):
                 rhs += c * val(mod_series, of, k - 1)
             if abs(val(mod_series, v, k) - rhs) > b_mod:
                 bad_r.append(v)
+                if abs(val(mod_series, v, k) - rhs) > unit * scale(mod_series, k):
+                    beyond_relative = True        # not even within tolerance x magnitude
         if in_series is not None:
             ok_in = all(nm in in_series and len(in_series[nm]) > k and _finite(in_series[nm][:k + 1])
                         for nm in endo + list(paths))
@@ -564,7 +575,9 @@ def numeric_flags(block, mod_series, in_series, steps_ok):
                 for nm in paths:
                     if mod_series[nm][k] != in_series[nm][k]:
                         bad_a.append(nm)
-        out[k] = {'resid_ok': not bad_r, 'agree_ok': not bad_a, 'bad_resid': bad_r, 'bad_agree': bad_a}
+        out[k] = {'resid_ok': not bad_r, 'agree_ok': not bad_a, 'bad_resid': bad_r, 'bad_agree': bad_a,
+                  'within_tolerance_times_magnitude': bool(bad_r) and not beyond_relative
+                  and '<missing-or-non-finite>' not in bad_r and not set(bad_r) & set(paths)}
     return out
 
 
@@ -941,6 +954,8 @@ def _signature_of_generation(clause, block, want, endo, info, probe=False):
                 bad = set(info['flags'][k]['bad_resid'])
                 if bad and all(v in eqs and not eqs[v]['same'] and not eqs[v]['lag'] and eqs[v]['k'] == 0 for v in bad):
                     return 'equation-without-any-name-is-not-evaluated'
+                if info['flags'][k].get('within_tolerance_times_magnitude'):
+                    return 'equation-error-grows-with-the-magnitude-of-the-values'
                 return 'equations-not-satisfied:' + ','.join(sorted(set(info['flags'][k]['bad_resid'])))
         return None
     if clause == 'C20_AgreesWithInProcess':
